@@ -565,6 +565,11 @@ fn exec_op(
             drop(rx);
             Res::U
         }
+        K::ForgetRx { ch } => {
+            let rx = o.rx[ch].borrow_mut().take().expect("receiver gone");
+            std::mem::forget(rx);
+            Res::U
+        }
         K::ArcNew { h, arc } => {
             let p = Payload { arc, cell: prog.objs.arcs[arc], objs: Rc::as_ptr(objs) };
             let a = loom::sync::Arc::new(p);
